@@ -37,6 +37,7 @@ pub async fn run_line(line: &str) -> String {
         "reload_conc" => ops_dispatch::reload_conc(&args).await,
         "lb_seq" => ops_dispatch::lb_seq(&args).await,
         "lb_stress" => ops_dispatch::lb_stress(&args).await,
+        "idle_check" => ops_dispatch::idle_check(&args),
         "milu_parse" => ops_milu::milu_parse(&args),
         "milu_eval" => ops_milu::milu_eval(&args),
         "req_texts" => ops_milu::req_texts(&args),
